@@ -564,25 +564,32 @@ def connection_timeout():
 # ---------------------------------------------------------------------------- TubConnector.connectToAll, hint by hint
 
 BEH = ("ok", "cf", "ce", "inv", "key", "late", "val", "lf")      # behaviour named inside the hint: "beh:<kind>:<id>"
-_LATE = []                                                  # Deferreds of "lf" endpoints: they fail LATER (second phase)
+_LATE = []                                                  # (hint, Deferred) of "lf" endpoints: they fail LATER (second phase)
+_WAIT = {}                                                  # hint -> Deferred a "w?" handler returned and has not fired
 BEH_OUTCOME = {"ok": ("HPending", None), "lf": ("HPending", None), "cf": ("HConnectFails", "ConnectionRefusedError"), "ce": ("HConnectFails", "RuntimeError"),
                "inv": ("HRaises", "InvalidHintError"), "key": ("HRaises", "KeyError"), "late": ("HRaises", "KeyError"),
                "val": ("HRaises", "ValueError")}
+# handlers that have NOT answered when the reactor is idle (as a Tor handler whose Tor is starting): what their Deferred does
+# when it fires at last -- wn: never; wo: an endpoint that never answers; wc: an endpoint that refuses at once; wi / wk: fails with
+# InvalidHintError / KeyError; wx: never, and its canceller fails it with RuntimeError instead of CancelledError
+BEH_WAIT = {"wn": None, "wx": None, "wo": ("HPending", None), "wc": ("HConnectFails", "ConnectionRefusedError"),
+            "wi": ("HRaises", "InvalidHintError"), "wk": ("HRaises", "KeyError")}
 
 
 class _BehEndpoint(object):
-    def __init__(self, kind):
+    def __init__(self, kind, hint=None):
         self.kind = kind
+        self.hint = hint
 
     def connect(self, factory):
         from twisted.internet import defer, error
-        if self.kind == "cf":
+        if self.kind in ("cf", "wc"):
             return defer.fail(error.ConnectionRefusedError())
         if self.kind == "ce":
             raise RuntimeError("endpoint.connect() raised")
         d = defer.Deferred()                    # "ok": never answers
-        if self.kind == "lf":
-            _LATE.append(d)                     # refused later, when connect() has long returned
+        if self.kind in ("lf", "wo"):
+            _LATE.append((self.hint, d))        # refused later, when connect() has long returned
         return d
 
 
@@ -592,7 +599,11 @@ class _BehPlugin(object):
         from foolscap.ipb import InvalidHintError
         kind = hint.split(":")[1]
         if kind in ("ok", "cf", "ce", "lf"):
-            return _BehEndpoint(kind), "host"
+            return _BehEndpoint(kind, hint), "host"
+        if kind in BEH_WAIT:
+            d = defer.Deferred((lambda d: d.errback(RuntimeError("cancelled my way"))) if kind == "wx" else None)
+            _WAIT[hint] = d
+            return d
         if kind == "inv":
             raise InvalidHintError("plugin refuses " + hint)
         if kind == "late":
@@ -603,9 +614,28 @@ class _BehPlugin(object):
         return "beh"
 
 
-def connect_all_probe(hints):
+class _RecordedTorEndpoint(object):
+    """stands for txtorcon.TorClientEndpoint in connect_all_probe: never answers"""
+    def __init__(self, host, port, socks_endpoint=None, **kw):
+        self.host, self.port = host, port
+
+    def connect(self, factory):
+        from twisted.internet import defer
+        return defer.Deferred()
+
+
+STATUS_CODES = (("connecting to a Tor", 5), ("connecting to Tor", 5), ("connecting", 0), ("bad hint", 1), ("failed to connect", 2), ("connection refused", 3),
+                ("abandoned", 4), ("resolving hint", 5), ("launching Tor", 5), ("making Tor control endpoint", 5), ("waiting for Tor bootstrap", 5))
+
+
+def connect_all_probe(hints, schedule=None, tor=None):
     """getReference on a real Tub for a FURL with these hints (handlers: the default tcp handler with recorded endpoints
-    that never answer, and the "beh" plugin); -> what the TubConnector looks like when connect() has returned"""
+    that never answer, the "beh" plugin and, with tor=(setup, stage, mode), a FRESH Tor handler in that state registered for
+    "tor" hints, its endpoints recorded); -> what the TubConnector looks like when connect() has returned and the reactor is idle.
+    Then the late phase, `schedule` = list of ["resolve", hint] (the Deferred of a waiting "beh:w?" hint fires the way its kind says) |
+    ["connfail", hint] (the endpoint of a "beh:lf" hint refuses now) | ["tor-up"] / ["tor-fail"] (the Tor's stuck stage
+    succeeds / fails with TorDown) | ["timeout"] (CONNECTION_TIMEOUT seconds pass); out["trace"] = the connector after each.
+    schedule=None: every "lf" endpoint refuses, in the order of the hints (summary in out["late"], as before)."""
     from harness import implenv as E
     from zope.interface import directlyProvides
     from foolscap import connection
@@ -614,6 +644,7 @@ def connect_all_probe(hints):
     from foolscap.logging import log as flog
     E.reset_clock()
     del _LATE[:]
+    _WAIT.clear()
     made = []
     Base = connection.TubConnector
 
@@ -629,12 +660,17 @@ def connect_all_probe(hints):
             return Base.failed(self)
     saved = (tcp.HostnameEndpoint, flog.err, connection.TubConnector)
     tcp.HostnameEndpoint, flog.err, connection.TubConnector = _RecordingEndpoint, (lambda *a, **k: None), Recording
+    tor_mod = None
     try:
         with E.quiet():
             tub = E.Tub(certData=E.pem(0))
             plug = _BehPlugin()
             directlyProvides(plug, IConnectionHintHandler)
             tub.addConnectionHintHandler("beh", plug)
+            if tor is not None:
+                tub.addConnectionHintHandler("tor", tor_handler_in_state(*tor))
+                from foolscap.connections import tor as tor_mod
+                tor_mod.txtorcon.TorClientEndpoint = _RecordedTorEndpoint       # an attribute of the proxy instance, removed below
             tub.startService()
             E.turn()
             raised = None
@@ -648,30 +684,77 @@ def connect_all_probe(hints):
             out = None
             if c is not None:
                 def code(st):
-                    for prefix, k in (("connecting", 0), ("bad hint", 1), ("failed to connect", 2), ("connection refused", 3), ("abandoned", 4)):
+                    for prefix, k in STATUS_CODES:
                         if st.startswith(prefix):
                             return k
                     return 9
-                out = dict(attempted=list(c.attemptedLocations), valid=list(c.validHints), pending=len(c.pendingConnections),
-                           statuses=[[h, code(c._connectionInfo.connectorStatuses.get(h, "?"))] for h in c.attemptedLocations],
-                           reason=c.failureReason.type.__name__ if c.failureReason else None, active=bool(c.active),
-                           failed=c.n_failed, raised=raised, n_connectors=len(made), answered=bool(d.called) if raised is None else None)
-                # second phase: the "lf" endpoints now refuse, one after the other
+
+                def snap():
+                    return dict(attempted=list(c.attemptedLocations), valid=list(c.validHints), pending=len(c.pendingConnections),
+                                statuses=[[h, code(c._connectionInfo.connectorStatuses.get(h, "?"))] for h in c.attemptedLocations],
+                                reason=c.failureReason.type.__name__ if c.failureReason else None, active=bool(c.active),
+                                failed=c.n_failed, answered=bool(d.called) if raised is None else None,
+                                timer=bool(getattr(c, "timer", None)), finished=c not in tub._activeConnectors)
+                out = snap()
+                out.update(raised=raised, n_connectors=len(made))
                 from twisted.internet import error
                 n_late = len(_LATE)
-                try:
-                    while _LATE:
-                        _LATE.pop(0).errback(error.ConnectionRefusedError())
-                        E.turn()
-                    out["late"] = dict(n=n_late, failed=c.n_failed, active=bool(c.active), pending=len(c.pendingConnections),
-                                       answered=bool(d.called) if raised is None else None, raised=None)
-                except Exception as e:  # noqa
-                    out["late"] = dict(n=n_late, raised=type(e).__name__)
+                if schedule is None:
+                    # second phase: the "lf" endpoints now refuse, one after the other
+                    try:
+                        while _LATE:
+                            _LATE.pop(0)[1].errback(error.ConnectionRefusedError())
+                            E.turn()
+                        out["late"] = dict(n=n_late, failed=c.n_failed, active=bool(c.active), pending=len(c.pendingConnections),
+                                           answered=bool(d.called) if raised is None else None, raised=None)
+                    except Exception as e:  # noqa
+                        out["late"] = dict(n=n_late, raised=type(e).__name__)
+                else:
+                    out["trace"] = []
+                    try:
+                        for ev in schedule:
+                            if ev[0] == "resolve" and ev[1] in _WAIT:
+                                w = _WAIT.pop(ev[1])
+                                kind = ev[1].split(":")[1]
+                                if not w.called:
+                                    if kind in ("wo", "wc"):
+                                        w.callback((_BehEndpoint(kind, ev[1]), "host"))
+                                    elif kind in ("wi", "wk"):
+                                        from foolscap.ipb import InvalidHintError
+                                        w.errback((InvalidHintError if kind == "wi" else KeyError)("late " + ev[1]))
+                            elif ev[0] == "connfail":
+                                for i, (h, ld) in enumerate(list(_LATE)):
+                                    if h == ev[1]:
+                                        del _LATE[i]
+                                        if not ld.called:
+                                            ld.errback(error.ConnectionRefusedError())
+                                        break
+                            elif ev[0] in ("tor-up", "tor-fail"):
+                                held, _TOR["held"] = _TOR["held"], []
+                                for hd, value in held:
+                                    if ev[0] == "tor-up":
+                                        hd.callback(value)
+                                    else:
+                                        hd.errback(TorDown("Tor gave up"))
+                                    E.turn()
+                            elif ev[0] == "timeout":
+                                E.clock.advance(connection_timeout())
+                            E.turn()
+                            out["trace"].append(snap())
+                    except Exception as e:  # noqa
+                        out["trace_raised"] = "%s: %s" % (type(e).__name__, e)
+            for w in list(_WAIT.values()) + [ld for _, ld in _LATE] + [hd for hd, _ in _TOR["held"]]:
+                w.addErrback(lambda f: None)
             tub.stopService()
             E.clock.advance(1000)
             E.turn()
     finally:
         tcp.HostnameEndpoint, flog.err, connection.TubConnector = saved
+        if tor_mod is not None:
+            try:
+                del tor_mod.txtorcon.TorClientEndpoint
+            except AttributeError:
+                pass
     return out
 
 
